@@ -196,6 +196,9 @@ impl ContentType for Get {
     }
 }
 
+/// Upper bound on the memory reserved for a message body before any of it has arrived.
+const MAX_BODY_PREALLOCATION: u64 = 1024 * 1024;
+
 enum Content<T: ContentType> {
     Done(T::Finish),
     NeedMore(State<T>),
@@ -221,7 +224,11 @@ impl<T: ContentType> State<T> {
                         header.properties,
                     )))
                 } else {
-                    let buf = Vec::with_capacity(header.body_size as usize);
+                    // body_size is whatever the peer announced: reserve a bounded amount up front
+                    // (a huge value would panic with "capacity overflow" or abort the process on
+                    // allocation failure) and let the buffer grow as body frames actually arrive
+                    let reserve = u64::min(header.body_size, MAX_BODY_PREALLOCATION);
+                    let buf = Vec::with_capacity(reserve as usize);
                     Ok(Content::NeedMore(State::Body(start, header, buf)))
                 }
             }
